@@ -314,7 +314,20 @@ def make_crash_storage(path, counter):
 
         def create_file(self, name, **kw):
             self._tick("create " + name)
-            return FileStorage.create_file(self, name, **kw)
+            f = FileStorage.create_file(self, name, **kw)
+            # closing is an operation boundary too: until then the written bytes may sit in the process' buffers.
+            # Files are kept referenced so that an aborted writer's buffers are not flushed behind our back by the GC.
+            counter.setdefault("files", []).append(f)
+            orig_close = f.close
+
+            def close(_orig=orig_close, _name=name):
+                self._tick("close " + _name)
+                _orig()
+            try:
+                f.close = close
+            except AttributeError:
+                pass
+            return f
 
         def rename_file(self, a, b, safe=False):
             self._tick("rename %s -> %s" % (a, b))
@@ -424,6 +437,69 @@ def run_scenario(sc, fails_out):
                     k += 1
                     if k > 60:
                         break
+                shutil.rmtree(root + "_c", ignore_errors=True)
+                # ---------------- C03: a reader opened at ANY storage-operation boundary of the commit (another process
+                # looking at the directory at that instant) sees the old or the new state, never an error
+                shutil.copytree(root, root + "_c")
+                counter = {"n": 0, "at": None, "log": []}
+                st = make_crash_storage(root + "_c", counter)
+                seen = []
+
+                def probe(what, _before=before):
+                    try:
+                        pix = index.open_dir(root + "_c")
+                        with pix.reader() as pr:
+                            ids = sorted(pr.stored_fields(dn)["id"] for dn in pr.all_doc_ids())
+                        seen.append((what, ids, None))
+                    except Exception as e:
+                        seen.append((what, None, "%s: %s" % (type(e).__name__, e)))
+                orig_tick = st._tick
+
+                def tick(what):
+                    probe(what)
+                    orig_tick(what)
+                st._tick = tick
+                from whoosh.index import FileIndex
+                cix = FileIndex(st, schema())
+                w = cix.writer(compound=sc["compound"])
+                after = before.copy()
+                for op in step["ops"]:
+                    apply_real(w, op)
+                    after.apply(op)
+                seen[:] = []
+                w.commit(optimize=step["end"] == "optimize", merge=step["end"] != "nomerge")
+                old_ids = sorted(d["id"] for d in before.docs)
+                new_ids = sorted(d["id"] for d in after.docs)
+                for what, ids, err in seen:
+                    if err is not None or (ids != old_ids and ids != new_ids):
+                        fails.append(("C03-reader-during-commit", "a reader opened just before `%s` of a commit got %s (old state %r, new state %r)"
+                                      % (what, err or ids, old_ids, new_ids)))
+                        break
+                # ---------------- C03: the commit lands between a reader's TOC read and its opening of the segment files
+                if step["end"] == "optimize" and before.docs:
+                    shutil.rmtree(root + "_c", ignore_errors=True)
+                    shutil.copytree(root, root + "_c")
+                    from whoosh.filedb.filestore import FileStorage
+                    state = {"done": False}
+
+                    class LateStorage(FileStorage):
+                        def open_file(self, name, *a, **kw):
+                            if not state["done"] and not name.endswith(".toc"):
+                                state["done"] = True
+                                wix = index.open_dir(root + "_c")
+                                w9 = wix.writer(compound=sc["compound"])
+                                for op in step["ops"]:
+                                    apply_real(w9, op)
+                                w9.commit(optimize=True)
+                            return FileStorage.open_file(self, name, *a, **kw)
+                    try:
+                        lix = FileIndex(LateStorage(root + "_c"), schema())
+                        with lix.reader() as lr:
+                            ids = sorted(lr.stored_fields(dn)["id"] for dn in lr.all_doc_ids())
+                        if ids != old_ids and ids != new_ids:
+                            fails.append(("C03-reader-races-commit", "reader whose TOC read preceded an optimize commit got %r (old %r new %r)" % (ids, old_ids, new_ids)))
+                    except Exception as e:
+                        fails.append(("C03-reader-races-commit", "reader whose TOC read preceded an optimize commit failed: %s: %s" % (type(e).__name__, e)))
                 shutil.rmtree(root + "_c", ignore_errors=True)
             # ---------------- the real step
             w = ix.writer(compound=sc["compound"])
